@@ -115,7 +115,7 @@ def main():
                       'crate sources in the cargo registry', 'HashMap / IndexMap / Mapping lookups, and user Document implementations, are outside the claim']
     ck.functions |= {'value::<impl AsValue for T>::as_value (all primitive impls)', 'yaml::<impl AsValue for Yaml>::as_value', 'json::<impl AsValue for Json>::as_value',
                      'value::<impl AsValue for Option<V>>::as_value', 'solver::solve_expression (comparison arm)'}
-    ck.run_units([('prims',), ('serde',), ('containers',), ('kernel',)], run_unit, jobs=4)
+    ck.run_units([('prims',), ('serde',), ('containers',), ('kernel',), ('overrides',)], run_unit, jobs=5)
     ck.finish('every AsValue adapter executed from MIR on symbolic inputs; YAML and JSON number adapters against one abstract number; '
               'comparison kernel Int vs UInt')
 
@@ -127,6 +127,11 @@ def value_of(v):
 
 def run_unit(ck, unit):
     kind = unit[0]
+    if kind == 'overrides':
+        # a container's Object impl that overrides find() would make that representation resolve keys differently
+        import C10
+        C10.run_unit(ck, ('overrides',))
+        return
     prog = ck.program(FEATURES)
     uni = engine.Universe()
     if kind == 'prims':
